@@ -39,6 +39,10 @@ CHECKS = {
             "3.C19", "scipy binom.sf agrees with the exact tail to 1e-9 relative; mp=True on a deterministic subset, run in the parent process"),
     "C20": (EX, "E4+E3", "bounded-exhaustive enumeration: s-/node/sub-hypergraph centralities against networkx/scipy on independently built projections (int and string labels, temporal averages); CEC/HEC on every connected uniform hypergraph x every start vector of a finite menu (scripted through the np.random seam), eigen-equations checked with tolerances derived from the stopping rules, relabelling checked with the permuted start vector",
             "3.C20", "start vectors from a finite menu (alphabet limit); tolerances derived, not tuned"),
+    "C13": (MC, "E3", "stateless model checking of the real Markov chains: FULL tree of every random answer (ordered proposal pairs, redraws within a call budget, every reshuffle coin) of configuration_model for n_steps<=2(3), both labels, detailed T/F, size/order restriction; directed model deviation-bounded: every placement of <=D effective swaps (each with every node choice) among all 20m proposals; degree / size-multiset oracle on every execution's output",
+            "3.C13", "np.random / random reached through module-level names (seams); redraw loop cut by a per-label call budget (rejected redraws leave the chain state unchanged)"),
+    "C14": (EX, "E3", "exhaustive enumeration of every answer of every draw of each generator under scripted random sources (k-subsets, coins, a menu for exponential draws), structural contract checked on every execution; seed oracle: random.seed(seed) precedes the first draw, plus the real generator run twice per seed",
+            "3.C14", "redraw loops cut by call budgets; exponential draws from a 3-vector menu (alphabet limit)"),
 }
 PENDING = {}
 for i in range(1, 21):
